@@ -23,7 +23,7 @@
 
 namespace vh {
 
-static int64_t g_clock = 1000;
+static thread_local int64_t g_clock = 1000;   // one clock per host thread (C20 runs several engines)
 static int64_t clockFn() { return g_clock; }
 
 struct Streams {
@@ -38,7 +38,7 @@ struct Engine {
     explicit Engine(bool attachWarn = true, bool attachErr = true, bool attachDbg = true, bool attachOut = true)
     {
         g_clock = 1000;
-        mfuse::verif::clockHook = &clockFn;
+        if (!mfuse::verif::clockHook) mfuse::verif::clockHook = &clockFn;   // C20 sets it once before starting threads
         mfuse::EventSystem::Get();
         ctx.reset(new mfuse::ScriptContext());
         ctx->EventContext::Set(ctx.get());
